@@ -243,6 +243,12 @@ def check_voxels(case, ctx):
     ctx.label("planar-axis-aligned-shape", bool(flat_axes))
     pts = [list(p) for p in obj.evalpts]
     kw = {"num_procs": case["procs"]} if case.get("procs", 1) > 1 else {}
+    if case["n"] % 3 == 0:
+        # a refused request first (a grid needs at least 2 voxels per axis); the valid request after it is answered as usual
+        try:
+            voxelize.voxelize(obj, grid_size=(case["grid"][0], 1, case["grid"][2]))
+        except Exception:
+            ctx.label("after-a-rejected-request")
     ctx.label("num_procs>1", bool(kw))
     grid, filled = voxelize.voxelize(obj, grid_size=tuple(case["grid"]), use_cubes=case["cubes"], **kw)
     ctx.check(len(grid) == len(filled) and len(grid) > 0, "voxel-counts", "%d voxels but %d fill flags" % (len(grid), len(filled)))
